@@ -30,6 +30,13 @@ WORKLOADS = {
 BIGC = {"big1": b"1" * (2**20 + 1), "big2": b"2" * (2**20 + 1)}
 CONTENTS = dict(CONTENTS, **BIGC)
 MD5 = dict(MD5, **{k: ref.md5(v) for k, v in BIGC.items()})
+from ..lab import BULK, BULK_MD5, BULK_N  # noqa: E402
+
+CONTENTS.update(BULK)
+MD5.update(BULK_MD5)
+# 1001 files per writer in one directory (beyond the 999-parameter SQL batches of the state database), 700 shared
+WORKLOADS["bulk"] = [{f"f{i:04d}": f"bulk{i}" for i in range(1001)},
+                     {f"f{i:04d}": f"bulk{i + BULK_N - 1001}" for i in range(1001)}]
 
 
 def listing(tree):
@@ -106,7 +113,7 @@ def install_data_read_seam():
     _READS["installed"] = True
 
 
-def writer_fn(root, wi, tree, shared_objs, first, upload=False):
+def writer_fn(root, wi, tree, shared_objs, first, upload=False, trail=False):
     """Returns a callable performing writer wi's stage + transfer."""
 
     def fn():
@@ -140,7 +147,8 @@ def writer_fn(root, wi, tree, shared_objs, first, upload=False):
 
         T._log_exception = _rec
         try:
-            staging, _m, obj = build(odb, os.path.join(root, f"ws{wi}"), LFS, "md5", upload=upload)
+            wsp = os.path.join(root, f"ws{wi}") + (os.sep if trail else "")   # same directory, other spelling
+            staging, _m, obj = build(odb, wsp, LFS, "md5", upload=upload)
             res = transfer(staging, odb, {obj.hash_info}, shallow=False, hardlink=False)
         finally:
             if state is not None:
@@ -184,7 +192,7 @@ def one_schedule(cfg, choices):
         if cfg["mode"] == "threads":
             state = State(root_dir=root, tmp_dir=w.p("tmp"))
             odb = make_odb("local", w.p("odb"), state=state)
-            fns = [writer_fn(root, i, t, {"odb": odb}, cfg.get("first"), cfg.get("upload", False))
+            fns = [writer_fn(root, i, t, {"odb": odb}, cfg.get("first"), cfg.get("upload", False), cfg.get("trail", False))
                    for i, t in enumerate(trees)]
             fine = [w.p(f"ws{i}") for i in range(len(trees))] if cfg.get("fine") or cfg.get("reads") else []
             # reads pass: only the workspaces' events and data reads are points (the phases that touch the
@@ -202,7 +210,7 @@ def one_schedule(cfg, choices):
                 state.close()
         else:
             os.makedirs(w.p("odb"), exist_ok=True)
-            fns = [writer_fn(root, i, t, None, cfg.get("first"), cfg.get("upload", False))
+            fns = [writer_fn(root, i, t, None, cfg.get("first"), cfg.get("upload", False), cfg.get("trail", False))
                    for i, t in enumerate(trees)]
             sched = ProcSched(fns, choices, shared)
             try:
@@ -435,6 +443,16 @@ def configs(tier):
             (2 if tier == "thorough" else 1)
 
 
+def _extra_cfgs(tier):
+    # the workspace spelled with a trailing separator (nested tree)
+    for mode in ("threads", "procs"):
+        yield {"workload": "identical", "mode": mode, "first": None, "caps": False, "trail": True}, 1
+    # 1001 files per writer: only the schedule without preemptions (one writer after the other), which already
+    # crosses the state database's 999-parameter batches with a non-empty table
+    for mode in ("threads", "procs"):
+        yield {"workload": "bulk", "mode": mode, "first": None, "caps": False}, 0
+
+
 def _reads_cfgs(tier):
     # data-read pass: a writer can be preempted right after each read of a workspace file (hashing is the
     # only consumer), so that buffers shared between hashing calls would show
@@ -462,7 +480,7 @@ def run(ctx):
         "by a scheduling point (and only workspace events are points in that pass)",
     ]
     ctx.require("schedules", "preempted_schedules", "adjacent_conflicts")
-    cfgs = list(configs(ctx.tier)) + list(_reads_cfgs(ctx.tier))
+    cfgs = list(configs(ctx.tier)) + list(_reads_cfgs(ctx.tier)) + list(_extra_cfgs(ctx.tier))
     ctx.bound = {"configs": len(cfgs),
                  "preemption_bound": {json.dumps(c, sort_keys=True): b for c, b in cfgs}}
     probes = {}
@@ -474,7 +492,7 @@ def run(ctx):
     cs = []
     for cfg, b in cfgs:
         n = probes.get(json.dumps(cfg, sort_keys=True), 0)
-        for fd in range(-1, n):
+        for fd in range(-1, n if b > 0 else min(n, 1)):
             cs.append({"cfg": cfg, "first_dev": fd, "bound": b})
     ctx.extra["scheduling_points_default_schedule"] = {json.dumps(c, sort_keys=True): probes.get(json.dumps(c, sort_keys=True)) for c, _b in cfgs}
     # one distinct outcome per configuration over all schedules
